@@ -269,7 +269,7 @@ func runErrLine(c *vp.Child) {
 	defer r.close()
 	bases := append(append([]chunk{}, errBases...), corpus()...)
 	k := 0
-	rounds := c.Pick(2, 40)
+	rounds := c.Pick(2, 30)
 	perKind := c.Pick(2, 4)
 	for _, base := range bases {
 		ts, err := lex(base.src)
